@@ -44,6 +44,9 @@ type Program struct {
 	specList  []*FuncSpec
 	specFuns  map[string]*SpecFun
 	macros    map[string]*SpecMacro
+	globalInvs map[string]bool
+	freshNonNil map[*ssa.Function]int
+	absMacros  map[string]map[string]*SpecMacro
 	axioms    []*Axiom
 	funcs     map[string]*ssa.Function // specKey -> function
 	allFuncs  []*ssa.Function
@@ -195,6 +198,23 @@ func (P *Program) addSpecFile(sf *SpecFile) {
 		P.macros[m.Name] = m
 	}
 	P.axioms = append(P.axioms, sf.Axioms...)
+	for _, n := range sf.GlobalInvs {
+		if P.globalInvs == nil {
+			P.globalInvs = map[string]bool{}
+		}
+		P.globalInvs[n] = true
+	}
+	for abs, ms := range sf.AbsMacros {
+		if P.absMacros == nil {
+			P.absMacros = map[string]map[string]*SpecMacro{}
+		}
+		if P.absMacros[abs] == nil {
+			P.absMacros[abs] = map[string]*SpecMacro{}
+		}
+		for _, m := range ms {
+			P.absMacros[abs][m.Name] = m
+		}
+	}
 	for _, fs := range sf.Funcs {
 		key := fs.Pkg + "::" + fs.Key
 		if fs.Pkg == "" || strings.Contains(fs.Key, "/") {
